@@ -77,8 +77,6 @@ TRIGGERS = {
     'GR4J': [('x4-out-of-range', lambda P, L, ins, pmsg: P.get('X4', 0.0) <= 0.0 or P.get('X4', 0.0) >= 2.0 ** 31)],
     'RatingCurvePartition': [('table-never-dimensioned', lambda P, L, ins, pmsg: L > 0)],
     'Storage': [('table-never-dimensioned', lambda P, L, ins, pmsg: True)],
-    'InstreamDissolvedNutrientDecay': [('zero-length-series', lambda P, L, ins, pmsg: L == 0)],
-    'StorageTrapAll': [('zero-length-series', lambda P, L, ins, pmsg: L == 0)],
     'Lag': [('lag-out-of-range', lambda P, L, ins, pmsg: P.get('timeLag', 0.0) < 0.0 or P.get('timeLag', 0.0) >= 2.0 ** 31)],
     'StorageRouting': [('nan-guard-panic', lambda P, L, ins, pmsg: pmsg.strip() in NAN_GUARDS)],
 }
